@@ -74,6 +74,15 @@ structure HistP where
   ext : Option (Int × Int)
 deriving Repr
 
+/-- one source of a composite aggregation: the source keys of a document are the values of
+`field`, already numbered `0 … base-1` in source-key order by the harness (terms source: rank
+of the term; histogram source: rank of the bucket start); `desc` reverses the order -/
+structure CompSrc where
+  field : Field
+  base : Nat
+  desc : Bool
+deriving Repr
+
 inductive Req
   | none
   | both (a b : Req)
@@ -82,6 +91,13 @@ inductive Req
   | hist (p : HistP) (sub : Req)
   | range (f : Field) (cuts : List Int) (sub : Req)
   | filter (f : Field) (v : Int) (sub : Req)
+  /-- top_hits: the best `k` `(sort key, document address)` pairs; the sort key is a value of
+  field `f`, the address the first value of field `addr` (mirrors: metric/top_hits.rs) -/
+  | topHits (f addr : Field) (k : Nat) (desc : Bool)
+  /-- composite: buckets keyed by the product of the source keys, in composite-key order
+  (per-source ascending / descending); the page starts after `after` and has `size` buckets
+  (mirrors: bucket/composite/*, IntermediateCompositeBucketResult::into_final_result) -/
+  | composite (srcs : List CompSrc) (size : Nat) (after : Option Int) (sub : Req)
 deriving Repr
 
 /-! ### bucket arithmetic -/
@@ -124,6 +140,36 @@ def rangeIdxs (f : Field) (cuts : List Int) (d : Doc) : List Int :=
   (d.vals f).map (fun v => (rangeIdx cuts v : Int))
 
 def filterMatch (f : Field) (v : Int) (d : Doc) : Bool := (d.vals f).contains v
+
+/-- number of composite keys below the sources `ss` (mixed radix) -/
+def compRadix : List CompSrc → Int
+  | [] => 1
+  | s :: ss => (s.base : Int) * compRadix ss
+
+/-- the composite keys of a document: the product of its source keys, each tuple encoded as one
+integer in mixed radix so that integer order is the composite-key order (first source most
+significant, a descending source counted from the top); a document without value for some
+source has no key (`missing_bucket = false`)
+(mirrors: composite/collector.rs::CompositeKeyVisitor) -/
+def compKeys : List CompSrc → Doc → List Int
+  | [], _ => [0]
+  | s :: ss, d =>
+    (d.vals s.field).flatMap fun v =>
+      (compKeys ss d).map fun r => (if s.desc then (s.base : Int) - 1 - v else v) * compRadix ss + r
+
+/-! ### top hits -/
+
+/-- `(sort key, document address)` -/
+abbrev HitE := Int × Int
+
+/-- order of top_hits: by sort key (ascending or descending), ties by ascending address
+(mirrors: top_score_collector.rs::compare_for_top_k through `TopNComputer`) -/
+def hitLe (desc : Bool) (a b : HitE) : Bool :=
+  if desc then decide (b.1 < a.1) || (a.1 == b.1 && decide (a.2 ≤ b.2))
+  else decide (a.1 < b.1) || (a.1 == b.1 && decide (a.2 ≤ b.2))
+
+def hitEntries (f addr : Field) (d : Doc) : List HitE :=
+  (d.vals f).map (fun v => (v, (d.vals addr).headD 0))
 
 /-! ### metric accumulator -/
 
@@ -170,6 +216,8 @@ def Acc.ofVals (vs : List Int) : Acc M :=
   | .hist _ sub => List (Int × Nat × Res M sub)
   | .range _ _ sub => List (Int × Nat × Res M sub)
   | .filter _ _ sub => Nat × Res M sub
+  | .topHits _ _ _ _ => List HitE
+  | .composite _ _ _ sub => List (Int × Nat × Res M sub)
 
 /-- integers `lo, lo+1, …` (`n` of them) -/
 def intRange (lo : Int) : Nat → List Int
@@ -210,6 +258,10 @@ def isort {α : Type} (le : α → α → Bool) (l : List α) : List α := l.fol
 
 def sortBuckets {V : Type} (o : Order) (l : List (Int × Nat × V)) : List (Int × Nat × V) :=
   isort (fun a b => o.le (a.1, a.2.1) (b.1, b.2.1)) l
+
+/-- one page of a composite result: the buckets after the `after` key, at most `size` -/
+def compPage {V : Type} (size : Nat) (after : Option Int) (all : List (Int × Nat × V)) : List (Int × Nat × V) :=
+  (all.filter (fun b => match after with | some a => decide (a < b.1) | Option.none => true)).take size
 
 def sumCounts {V : Type} (l : List (Int × Nat × V)) : Nat := (l.map (·.2.1)).sum
 
@@ -265,5 +317,13 @@ def evalAgg : (r : Req) → List Doc → Res M r
   | .filter f v sub, docs =>
     let ds := docs.filter (filterMatch f v)
     (ds.length, evalAgg sub ds)
+  | .topHits f addr k desc, docs =>
+    (isort (hitLe desc) (docs.flatMap (hitEntries f addr))).take k
+  | .composite srcs size after sub, docs =>
+    let keys := (spanOf (hullOfList (docs.flatMap (compKeys srcs)))).filter
+      (fun k => docs.any (fun d => (compKeys srcs d).contains k))
+    compPage size after (keys.map fun k =>
+      let ds := docs.filter (fun d => (compKeys srcs d).contains k)
+      (k, ds.length, evalAgg sub ds))
 
 end TantivyModel.Agg
